@@ -29,10 +29,26 @@ type verifPoolObserver func(put bool, buffer *bytes.Buffer)
 
 type verifYieldObserver func(point string)
 
+type verifCodecObserver func(put bool, codec any)
+
 var (
 	verifPoolHook  atomic.Value // verifPoolObserver
 	verifYieldHook atomic.Value // verifYieldObserver
+	verifCodecHook atomic.Value // verifCodecObserver
 )
+
+// VerifSetCodecPoolObserver installs a callback that sees every compressor and
+// decompressor taken from or returned to a compression pool. Passing nil
+// removes it.
+func VerifSetCodecPoolObserver(observer func(put bool, codec any)) {
+	verifCodecHook.Store(verifCodecObserver(observer))
+}
+
+func verifOnCodec(put bool, codec any) {
+	if observer, ok := verifCodecHook.Load().(verifCodecObserver); ok && observer != nil {
+		observer(put, codec)
+	}
+}
 
 // VerifSetPoolObserver installs a callback that sees every buffer taken from
 // or returned to a buffer pool. Passing nil removes it.
